@@ -25,12 +25,16 @@ type deciderTable struct {
 	why     string // otherwise: what went wrong (not evaluable, or which case is wrong)
 	shape   bool   // the function has the shape of a decider at all (wire, label in; bit and ok/error out)
 	boolOK  bool   // the last result is a bool (true = known label), not an error
+	sticky  string // the verdict is left in this error field of the pointer receiver (nil = known label)
 	evaluee *ssa.Function
 }
 
 type ldLabel string    // a label token
 type ldWire struct{}   // the wire operand: field L0 is token L0, field L1 is token L1
-type ldCell struct{ v any }
+type ldCell struct {
+	v      any
+	fields map[string]any
+}
 type ldView struct{ c *ldCell } // a byte view of a buffer
 type ldErr struct{}
 type ldOpaque struct{}
@@ -69,7 +73,24 @@ func labelDecider(fn *ssa.Function) *deciderTable {
 		}
 	}
 	res := fn.Signature.Results()
-	if wireP == nil || labelP == nil || res.Len() != 2 {
+	// a method that records the verdict in an error field of its pointer receiver instead of returning it
+	var recvP *ssa.Parameter
+	errField := ""
+	if wireP != nil && labelP != nil && res.Len() == 1 && fn.Signature.Recv() != nil && len(fn.Params) > 0 {
+		if pt, ok := fn.Params[0].Type().Underlying().(*types.Pointer); ok {
+			if st, ok := pt.Elem().Underlying().(*types.Struct); ok {
+				for i := 0; i < st.NumFields(); i++ {
+					if st.Field(i).Type().String() == "error" {
+						errField = st.Field(i).Name()
+					}
+				}
+				if errField != "" {
+					recvP = fn.Params[0]
+				}
+			}
+		}
+	}
+	if wireP == nil || labelP == nil || (res.Len() != 2 && recvP == nil) {
 		return t
 	}
 	first, isBasic := res.At(0).Type().Underlying().(*types.Basic)
@@ -77,6 +98,8 @@ func labelDecider(fn *ssa.Function) *deciderTable {
 		return t
 	}
 	switch {
+	case recvP != nil:
+		t.sticky = errField
 	case res.At(1).Type().String() == "error":
 	case res.At(1).Type().String() == "bool":
 		t.boolOK = true
@@ -86,10 +109,40 @@ func labelDecider(fn *ssa.Function) *deciderTable {
 	t.shape = true
 	want := map[ldLabel][2]any{"L0": {int64(0), true}, "L1": {int64(1), true}, "X": {nil, false}}
 	for _, cs := range []ldLabel{"L0", "L1", "X"} {
-		vals, why := ldEval(fn, wireP, labelP, cs)
+		args := make([]any, len(fn.Params))
+		var recvCell *ldCell
+		for i, prm := range fn.Params {
+			switch {
+			case prm == labelP:
+				args[i] = cs
+			case prm == wireP:
+				if _, isPtr := prm.Type().(*types.Pointer); isPtr {
+					args[i] = &ldCell{v: ldWire{}}
+				} else {
+					args[i] = ldWire{}
+				}
+			case prm == recvP:
+				recvCell = &ldCell{fields: map[string]any{errField: nil}}
+				args[i] = recvCell
+			default:
+				if _, isPtr := prm.Type().(*types.Pointer); isPtr {
+					args[i] = &ldCell{}
+				} else {
+					args[i] = ldOpaque{}
+				}
+			}
+		}
+		vals, why := ldEval(fn, args, 0)
 		if why != "" {
 			t.why = "not evaluable: " + why
 			return t
+		}
+		if recvP != nil {
+			if len(vals) != 1 {
+				t.why = "does not return one value"
+				return t
+			}
+			vals = append(vals, recvCell.fields[errField])
 		}
 		if len(vals) != 2 {
 			t.why = "does not return two values"
@@ -138,8 +191,13 @@ func labelDecider(fn *ssa.Function) *deciderTable {
 }
 
 // ldEval runs fn with the label parameter equal to the token which.
-func ldEval(fn *ssa.Function, wireP, labelP *ssa.Parameter, which ldLabel) ([]any, string) {
+func ldEval(fn *ssa.Function, args []any, depth int) ([]any, string) {
 	env := map[ssa.Value]any{}
+	for i, prm := range fn.Params {
+		if i < len(args) {
+			env[prm] = args[i]
+		}
+	}
 	fail := ""
 	bad := func(f string, a ...any) any {
 		if fail == "" {
@@ -166,21 +224,6 @@ func ldEval(fn *ssa.Function, wireP, labelP *ssa.Parameter, which ldLabel) ([]an
 			}
 			return ldOpaque{}
 		case *ssa.Parameter:
-			switch {
-			case t == labelP:
-				return which
-			case t == wireP:
-				if _, isPtr := t.Type().(*types.Pointer); isPtr {
-					return &ldCell{v: ldWire{}}
-				}
-				return ldWire{}
-			}
-			if pt, ok := t.Type().(*types.Pointer); ok {
-				_ = pt
-				c := &ldCell{}
-				env[v] = c
-				return c
-			}
 			return ldOpaque{}
 		case *ssa.Global, *ssa.Function, *ssa.Builtin:
 			return ldOpaque{}
@@ -231,7 +274,11 @@ func ldEval(fn *ssa.Function, wireP, labelP *ssa.Parameter, which ldLabel) ([]an
 				switch a := get(t.Addr).(type) {
 				case *ldCell:
 					a.v = get(t.Val)
-				case ldFieldRef, ldOpaque:
+				case ldFieldRef:
+					if a.cell.fields != nil {
+						a.cell.fields[a.name] = get(t.Val)
+					}
+				case ldOpaque:
 				default:
 					_ = a
 				}
@@ -248,6 +295,12 @@ func ldEval(fn *ssa.Function, wireP, labelP *ssa.Parameter, which ldLabel) ([]an
 					case ldFieldRef:
 						if _, isWire := a.cell.v.(ldWire); isWire {
 							env[t] = fieldTok(a.name)
+						} else if a.cell.fields != nil {
+							if fv, ok := a.cell.fields[a.name]; ok {
+								env[t] = fv
+							} else {
+								env[t] = ldOpaque{}
+							}
 						} else {
 							env[t] = ldOpaque{}
 						}
@@ -418,6 +471,22 @@ func ldEval(fn *ssa.Function, wireP, labelP *ssa.Parameter, which ldLabel) ([]an
 					}
 				case strings.HasSuffix(name, ".Errorf") || name == "errors.New":
 					env[t] = ldErr{}
+				case callee != nil && load.InModule(callee) && callee.Blocks != nil && depth < 3:
+					// a function of the module: evaluate it on the values at hand
+					sub := make([]any, len(args))
+					for i, a := range args {
+						sub[i] = get(a)
+					}
+					rv, why := ldEval(callee, sub, depth+1)
+					if why != "" {
+						env[t] = ldOpaque{}
+						break
+					}
+					if len(rv) == 1 {
+						env[t] = rv[0]
+					} else {
+						env[t] = rv
+					}
 				default:
 					env[t] = ldOpaque{}
 				}
